@@ -61,7 +61,18 @@ func verifExprBytes(tag string, n int) string {
 	return s
 }
 
-// verifC03: part selects what varies: 0 CHECK constraints, 1 foreign-key names
+// verifExprBytesQ: the quoting alphabet only (letters, the single quote, the backslash - an ordinary
+// character in SQLite strings - parentheses and a blank), so that longer texts stay tractable.
+func verifExprBytesQ(tag string, n int) string {
+	s := verifString(tag, n)
+	for i := 0; i < n; i++ {
+		c := s[i]
+		verifAssume(verifOr(verifOr(c == 'a', c == '\''), verifOr(verifOr(c == '\\', c == ' '), verifOr(c == '(', c == ')'))))
+	}
+	return s
+}
+
+// verifC03: part selects what varies (3 = two CHECK constraints of 3 and 2 bytes over the quoting alphabet): 0 CHECK constraints, 1 foreign-key names
 // (+ autoincrement), 2 generated expression.
 func verifC03(part, exprLen int, mode string) {
 	sch := schema.New("main")
@@ -79,6 +90,9 @@ func verifC03(part, exprLen int, mode string) {
 	t.SetPrimaryKey(pk)
 	// checks
 	nchecks := 1
+	if part == 3 {
+		nchecks = 2
+	}
 	if part == 0 {
 		nchecks = 1
 		if exprLen <= 2 {
@@ -96,6 +110,9 @@ func verifC03(part, exprLen int, mode string) {
 		c.expr = "a>1"
 		if part == 0 {
 			c.expr = "a" + verifExprBytes(fmt.Sprintf("ce%d", k), exprLen)
+		}
+		if part == 3 {
+			c.expr = "a" + verifExprBytesQ(fmt.Sprintf("ce%d", k), exprLen-k)
 		}
 		verifAssume(verifBalancedExpr(c.expr))
 		for i := 0; i < len(c.expr); i++ {
@@ -185,12 +202,13 @@ func verifC03(part, exprLen int, mode string) {
 	}
 }
 
-func VerifHarness_C03_checks2()  { verifC03(0, 2, "main") }
-func VerifHarness_C03_checks3()  { verifC03(0, 3, "main") }
-func VerifHarness_C03_names()    { verifC03(1, 0, "main") }
-func VerifHarness_C03_gen2()     { verifC03(2, 2, "main") }
-func VerifHarness_C03_gen3()     { verifC03(2, 3, "main") }
-func VerifHarness_C03_witness()  { verifC03(0, 3, "witness") }
+func VerifHarness_C03_checks2() { verifC03(0, 2, "main") }
+func VerifHarness_C03_checks3() { verifC03(0, 3, "main") }
+func VerifHarness_C03_checksq() { verifC03(3, 3, "main") }
+func VerifHarness_C03_names()   { verifC03(1, 0, "main") }
+func VerifHarness_C03_gen2()    { verifC03(2, 2, "main") }
+func VerifHarness_C03_gen3()    { verifC03(2, 3, "main") }
+func VerifHarness_C03_witness() { verifC03(0, 3, "witness") }
 
 // verifC03Types: the SQL export of a column type. A column inspected with the
 // declared type `raw` is exported as FormatType of its parsed type; creating
